@@ -16,6 +16,7 @@ import tempfile
 VERIF = os.path.dirname(os.path.dirname(os.path.abspath(__file__)))
 # ./check is run from here: a snapshot of /verif (git archive) keeps a long sweep independent of edits made meanwhile
 CHECK_DIR = os.environ.get("VERIF_SNAPSHOT", VERIF)
+REPO_REV = os.environ.get("SWEEP_REPO_REV", "HEAD")   # pin the commit of /repo a long sweep runs against
 PROPS = [json.loads(l)["id"] for l in open(os.path.join(VERIF, "properties.jsonl"))]
 
 
@@ -29,7 +30,7 @@ def run_one(hid):
     tmp = tempfile.mkdtemp(prefix="/tmp/harm_")
     res = {"id": hid}
     try:
-        sh(f"git -C /repo archive HEAD | tar -x -C {tmp}")
+        sh(f"git -C /repo archive {REPO_REV} | tar -x -C {tmp}")
         rc, out = sh(f"git apply --whitespace=nowarn {os.path.join(d, 'patch.diff')}", cwd=tmp)
         res["patch_applies"] = rc == 0
         if rc != 0:
